@@ -207,8 +207,8 @@ def run_history(ctx, text, ops, info, reqs_out):
                 ok = isinstance(got, dict) and set(got) == set(v)
             elif isinstance(v, list):
                 ok = got == "[ " + " ".join(str(x) for x in v) + " ]"
-            elif isinstance(v, str) and v.startswith("EXPR:{"):
-                ok = isinstance(got, dict)
+            elif isinstance(v, str) and v.startswith("EXPR:"):
+                ok = got == ep.value_as_tree(v[5:])
             else:
                 ok = got == want_leaf
             if not ok:
@@ -221,6 +221,11 @@ def run_history(ctx, text, ops, info, reqs_out):
                 ob = {k for k in cur_b if k != names[-1]}
                 oa = {k for k in cur_a if k != names[-1]}
                 if ob != oa:
+                    roots = {p[0] for p in ep.attrpath_parents_of(text) if len(p) == 1}
+                    if (oa - ob) and (oa - ob) <= roots:
+                        # bindings of an attrpath family deleted earlier come back: the family was removed
+                        # from `values` only and is still in `attrpath_order`
+                        key = {**key, "cause": "attrpath-zombie"}
                     ctx.fail({"clause": "set-changes-other-keys", **key}, {**inp, "after": r["after"]},
                              f"after {op!r} the other keys changed: {sorted(map(str, ob))} -> {sorted(map(str, oa))}")
         elif op[0] == "del":
